@@ -157,6 +157,21 @@ func (t *c14Transport) RoundTrip(req *http.Request) (*http.Response, error) {
 	return nil, errors.New("scripted backend failure")
 }
 
+// the health endpoint of the backends: the probe of backend i fails when bit i of mask is set
+type c14HealthTransport struct {
+	mask *int32
+}
+
+func (t *c14HealthTransport) RoundTrip(req *http.Request) (*http.Response, error) {
+	var i int
+	fmt.Sscanf(req.URL.Host, "h%d.test", &i)
+	if atomic.LoadInt32(t.mask)>>uint(i)&1 == 1 {
+		return nil, errors.New("scripted health probe failure")
+	}
+	return &http.Response{StatusCode: 200, Proto: "HTTP/1.1", ProtoMajor: 1, ProtoMinor: 1, Header: http.Header{},
+		Body: io.NopCloser(strings.NewReader("ok")), ContentLength: 2, Request: req}, nil
+}
+
 var c14Outcomes = []string{"ok", "err", "cancel", "big", "panic"}
 
 func c14Wait(th *c14Thread, states ...int32) bool {
@@ -224,6 +239,8 @@ func c14Eval(f []string) (string, []string) {
 		}
 		h.ReverseProxy.Transport = &c14Transport{s: s, host: i}
 	}
+	var healthMask int32
+	proxy.VerifSetHealthCheck(up, "/health", &c14HealthTransport{mask: &healthMask})
 	c14Mu.Lock()
 	c14Scheds[id] = s
 	c14Mu.Unlock()
@@ -241,7 +258,14 @@ func c14Eval(f []string) (string, []string) {
 			fs[i] = strconv.Itoa(int(atomic.LoadInt32(&h.Fails)))
 			is[i] = strconv.Itoa(int(atomic.LoadInt32(&s.inflight[i])))
 		}
-		return label + "|" + strings.Join(cs, ",") + "|" + strings.Join(fs, ",") + "|" + strings.Join(is, ",")
+		us := make([]byte, nHosts)
+		for i, h := range pool {
+			us[i] = '0'
+			if atomic.LoadInt32(&h.Unhealthy) != 0 {
+				us[i] = '1'
+			}
+		}
+		return label + "|" + strings.Join(cs, ",") + "|" + strings.Join(fs, ",") + "|" + strings.Join(is, ",") + "|" + string(us)
 	}
 	anyAvail := func() bool {
 		for _, h := range pool {
@@ -314,6 +338,14 @@ func c14Eval(f []string) (string, []string) {
 				events = append(events, [2]int{1000, 0})
 				continue
 			}
+			if strings.HasPrefix(e, "hc:") {
+				m, err := strconv.Atoi(e[3:])
+				if err != nil || m < 0 {
+					return "bad-case", nil
+				}
+				events = append(events, [2]int{3000, m})
+				continue
+			}
 			if strings.HasPrefix(e, "c:") {
 				t, err := strconv.Atoi(e[2:])
 				if err != nil || t < 0 || t >= nThreads {
@@ -351,6 +383,30 @@ func c14Eval(f []string) (string, []string) {
 			}
 			tags["failure-expired-while-another-outstanding"] = len(queue) > 0 || tags["failure-expired-while-another-outstanding"]
 			snaps = append(snaps, snapshot("exp:"+strconv.Itoa(h)))
+			continue
+		}
+		if ev[0] >= 3000 {
+			// one pass of the real health check (what HealthCheckWorker does on a tick), probing every backend
+			atomic.StoreInt32(&healthMask, int32(ev[1]))
+			proxy.VerifHealthCheck(up)
+			bits := make([]byte, nHosts)
+			for i := range bits {
+				bits[i] = '0'
+				if ev[1]>>uint(i)&1 == 1 {
+					bits[i] = '1'
+				}
+			}
+			outstanding := false
+			for _, h := range pool {
+				if atomic.LoadInt32(&h.Fails) != 0 {
+					outstanding = true
+				}
+			}
+			tags["health-check"] = true
+			if outstanding {
+				tags["health-check-with-failures-outstanding"] = true
+			}
+			snaps = append(snaps, snapshot("hc:"+string(bits)))
 			continue
 		}
 		if ev[0] >= 2000 {
@@ -524,6 +580,9 @@ func c14Eval(f []string) (string, []string) {
 }
 
 func c14Ev(e [2]int) string {
+	if e[0] >= 3000 {
+		return fmt.Sprintf("hc:%d", e[1])
+	}
 	if e[0] >= 2000 {
 		return fmt.Sprintf("c:%d", e[0]-2000)
 	}
@@ -710,6 +769,45 @@ func c14Gen(g *hx.Gen) {
 		}
 		emitRetry(nHosts, mc, r.Intn(2), nThreads, evs)
 	}
+	// 1d. the health-check worker as an actor: a pass (every backend passing, or one failing) at every point of
+	//     a run in which request 0 fails on backend 0 (failure outstanding: never expiring, or expiring when told to)
+	//     and request 1 is answered; max_fails 1 and 2
+	for _, expiry := range []int{1, 3} {
+		for _, mf := range []int{1, 2} {
+			base := [][2]int{{0, 0}, {0, 0}, {0, 1}, {1, 0}, {1, 0}, {1, 0}}
+			for pos := 0; pos <= len(base); pos++ {
+				for _, mask := range []int{0, 1, 2} {
+					if !g.Thorough() && (pos+mask+mf)%2 == 0 && mask != 0 {
+						continue
+					}
+					b := append([][2]int{}, base[:pos]...)
+					b = append(b, [2]int{3000, mask})
+					b = append(b, base[pos:]...)
+					if mask != 0 {
+						b = append(b, [2]int{3000, 0})
+					}
+					if expiry == 3 {
+						b = append(b, [2]int{1000, 0}, [2]int{3000, 0})
+					}
+					b = append(b, [2]int{2, 0}, [2]int{2, 0}, [2]int{2, 0})
+					parts := make([]string, 0, len(b)+20)
+					for _, e := range b {
+						if e[0] == 1000 {
+							parts = append(parts, "w")
+						} else {
+							parts = append(parts, c14Ev(e))
+						}
+					}
+					for round := 0; round < 8; round++ {
+						for t := 0; t < 3; t++ {
+							parts = append(parts, fmt.Sprintf("%d:0", t))
+						}
+					}
+					g.Case("2", "0", strconv.Itoa(mf), strconv.Itoa(expiry), "00", "3", strings.Join(parts, ","), "0")
+				}
+			}
+		}
+	}
 	// 2. seeded random schedules: 2..3 backends, 2..5 requests (thorough: up to 6), all outcome kinds
 	N := 1200
 	if g.Thorough() {
@@ -743,6 +841,12 @@ func c14Gen(g *hx.Gen) {
 			evs[i] = [2]int{r.Intn(nThreads), x}
 			if r.Chance(1, 15) {
 				evs[i] = [2]int{2000 + r.Intn(nThreads), 0}
+			}
+			if r.Chance(1, 12) {
+				evs[i] = [2]int{3000, r.Intn(1 << uint(nHosts))}
+				if r.Bool() {
+					evs[i][1] = 0
+				}
 			}
 		}
 		emit(nHosts, r.Intn(4), 1+r.Intn(3), expiry, unh, nThreads, evs)
